@@ -252,5 +252,139 @@ theorem softmax_value (H : Heap ℝ) (x n : Nat) (hx : x < H.size) (hwf : (H.val
       simp
     · rw [List.getElem?_eq_none (by simp; omega), List.getElem?_eq_none (by simp; omega)]
 
+/-- the softmax outputs sum to one -/
+theorem softmax_sum_one (X : List ℝ) (hX : X ≠ []) :
+    (X.map (fun a => Real.exp a / (X.map Real.exp).sum)).sum = 1 := by
+  have hpos : 0 < (X.map Real.exp).sum := by
+    apply List.sum_pos
+    · intro y hy
+      obtain ⟨a, _, rfl⟩ := List.mem_map.mp hy
+      exact Real.exp_pos a
+    · simpa using hX
+  simp only [div_eq_mul_inv]
+  rw [List.sum_map_mul_right]
+  exact mul_inv_cancel₀ (ne_of_gt hpos)
+
+/-- each softmax output lies in `(0, 1]` -/
+theorem softmax_mem_Ioc (X : List ℝ) (a : ℝ) (ha : a ∈ X) :
+    0 < Real.exp a / (X.map Real.exp).sum ∧ Real.exp a / (X.map Real.exp).sum ≤ 1 := by
+  have hnn : ∀ y ∈ X.map Real.exp, 0 ≤ y := by
+    intro y hy
+    obtain ⟨b, _, rfl⟩ := List.mem_map.mp hy
+    exact le_of_lt (Real.exp_pos b)
+  have hle : Real.exp a ≤ (X.map Real.exp).sum := List.single_le_sum hnn _ (List.mem_map_of_mem ha)
+  have hpos : 0 < (X.map Real.exp).sum := lt_of_lt_of_le (Real.exp_pos a) hle
+  exact ⟨div_pos (Real.exp_pos a) hpos, (div_le_one hpos).mpr hle⟩
+
+/-- **Softmax (rank 1) returns a point of the open-below simplex**: the run succeeds, the outputs are the
+    normalised exponentials, they sum to 1 and each lies in `(0, 1]`. -/
+theorem softmax_simplex (H : Heap ℝ) (x n : Nat) (hx : x < H.size) (hwf : (H.val x).WF) (hdim : (H.val x).dims = [n]) :
+    ∃ r H', actForward (Activation.softmax 0) [some x] H = .ok (r, H') ∧ Extends H H' ∧
+      (H'.val r).dims = [n] ∧ (H'.val r).data.sum = 1 ∧ ∀ y ∈ (H'.val r).data, 0 < y ∧ y ≤ 1 := by
+  obtain ⟨r, H', h1, h2, h3⟩ := softmax_value H x n hx hwf hdim
+  have hn : 0 < n := hwf.2 n (by rw [hdim]; simp)
+  have hlen : (H.val x).data.length = n := by rw [hwf.1, hdim]; simp [prod]
+  have hne : (H.val x).data ≠ [] := by
+    intro h; rw [h] at hlen; simp at hlen; omega
+  refine ⟨r, H', h1, h2, by rw [h3], by rw [h3]; exact softmax_sum_one _ hne, ?_⟩
+  intro y hy
+  rw [h3] at hy
+  obtain ⟨a, ha, rfl⟩ := List.mem_map.mp hy
+  exact softmax_mem_Ioc _ a ha
+
+/-! ## BCE -/
+
+/-- `clip(·, l, u)` on one real number -/
+noncomputable def clipR (l u a : ℝ) : ℝ := max l (min a u)
+/-- a target as BCE / CE use it: clipped to `[0, 1]` -/
+noncomputable def tHat (t : ℝ) : ℝ := clipR 0 1 t
+/-- a prediction as BCE / CE use it: clipped to `[ε, 1-ε]`, `ε = 10⁻¹²` -/
+noncomputable def pHat (p : ℝ) : ℝ := clipR (1 / 10 ^ 12) (1 - 1 / 10 ^ 12) p
+
+theorem tHat_mem (t : ℝ) : 0 ≤ tHat t ∧ tHat t ≤ 1 := by
+  unfold tHat clipR
+  exact ⟨le_max_left _ _, max_le (by norm_num) (min_le_right _ _)⟩
+
+theorem pHat_mem (p : ℝ) : 0 < pHat p ∧ pHat p < 1 := by
+  unfold pHat clipR
+  refine ⟨lt_of_lt_of_le (by norm_num) (le_max_left _ _), ?_⟩
+  apply lt_of_le_of_lt (max_le (by norm_num) (min_le_right _ _))
+  norm_num
+
+theorem tHat_id (t : ℝ) (h0 : 0 ≤ t) (h1 : t ≤ 1) : tHat t = t := by
+  unfold tHat clipR
+  rw [min_eq_left h1, max_eq_right h0]
+
+theorem zipWith_as_map {β γ δ : Type} (G : β → γ → δ) (l : List β) (l' : List γ) :
+    List.zipWith G l l' = (l.zip l').map (fun z => G z.1 z.2) := by
+  rw [List.map_zip_eq_zipWith]; rfl
+
+/-- **BCE = -(1/n) Σᵢ [t̂ᵢ·log p̂ᵢ + (1-t̂ᵢ)·log(1-p̂ᵢ)]** with `t̂ = clip(t, 0, 1)`, `p̂ = clip(p, ε, 1-ε)`, `ε = 10⁻¹²`:
+    for every batch size `n ≥ 1` and all values the run succeeds and returns that scalar. -/
+theorem bce_value (H : Heap ℝ) (p t : Nat) (n : Nat) (hp : p < H.size) (ht : t < H.size)
+    (wp : (H.val p).WF) (wt : (H.val t).WF) (dp : (H.val p).dims = [n]) (dt : (H.val t).dims = [n]) :
+    ∃ r H', lossCompute Loss.bce (some p) (some t) H = .ok (r, H') ∧ Extends H H' ∧
+      H'.val r = ⟨[], [-(1 / (n : ℝ)) * (List.zipWith (fun tv pv =>
+        tHat tv * Real.log (pHat pv) + (1 - tHat tv) * Real.log (1 - pHat pv)) (H.val t).data (H.val p).data).sum]⟩ := by
+  have hn : 0 < n := wp.2 n (by rw [dp]; simp)
+  have lp : (H.val p).data.length = n := by rw [wp.1, dp]; simp [prod]
+  have lt' : (H.val t).data.length = n := by rw [wt.1, dt]; simp [prod]
+  have hZ : ((H.val t).data.zip (H.val p).data).length = prod [n] := by simp [prod, lp, lt']
+  have hd : ∀ y ∈ [n], 0 < y := by simpa using hn
+  have t0 : Holds H t [n] ((H.val t).data.zip (H.val p).data) (fun z => z.1) :=
+    ⟨ht, by rw [List.map_fst_zip (by omega), ← dt]⟩
+  have p0 : Holds H p [n] ((H.val t).data.zip (H.val p).data) (fun z => z.2) :=
+    ⟨hp, by rw [List.map_snd_zip (by omega), ← dp]⟩
+  obtain ⟨yt, H1, h1⟩ := ran_clip hZ hd t0 (Scalar.zero : ℝ) Scalar.one
+  have yt1 := holds_of_ran h1
+  obtain ⟨yp, H2, h2⟩ := ran_clip hZ hd (p0.mono h1.ext) (Scalar.eps : ℝ) Scalar.oneMinusEps
+  have yp2 := holds_of_ran h2
+  obtain ⟨lg, H3, h3⟩ := ran_unary .log yp2
+  have lg3 := holds_of_ran h3
+  obtain ⟨s1, H4, h4⟩ := ran_arith .mul hZ hd (yt1.mono (h2.ext.trans h3.ext)) lg3
+  have s1_4 := holds_of_ran h4
+  obtain ⟨o, H5, h5⟩ := ran_pow (yp2.mono (h3.ext.trans h4.ext)) (Scalar.zero : ℝ)
+  have o5 := holds_of_ran h5
+  obtain ⟨t2, H6, h6⟩ := ran_arith .sub hZ hd o5 (yt1.mono (((h2.ext.trans h3.ext).trans h4.ext).trans h5.ext))
+  have t2_6 := holds_of_ran h6
+  obtain ⟨y2, H7, h7⟩ := ran_arith .sub hZ hd (o5.mono h6.ext)
+    (yp2.mono (((h3.ext.trans h4.ext).trans h5.ext).trans h6.ext))
+  have y2_7 := holds_of_ran h7
+  obtain ⟨lg2, H8, h8⟩ := ran_unary .log y2_7
+  have lg2_8 := holds_of_ran h8
+  obtain ⟨s2, H9, h9⟩ := ran_arith .mul hZ hd (t2_6.mono (h7.ext.trans h8.ext)) lg2_8
+  have s2_9 := holds_of_ran h9
+  obtain ⟨l, H10, h10⟩ := ran_arith .add hZ hd
+    (s1_4.mono ((((h5.ext.trans h6.ext).trans h7.ext).trans h8.ext).trans h9.ext)) s2_9
+  have l10 := holds_of_ran h10
+  obtain ⟨l', H11, h11⟩ := ran_scale l10 (Scalar.neg Scalar.one : ℝ)
+  have wl : (H11.val l').WF := by rw [h11.val]; exact wf_map hZ hd _
+  obtain ⟨r, H12, h12⟩ := ran_hAlong .mean l' 0 H11 _ (C12.vAlong_rank1 .mean (H11.val l') n (by rw [h11.val]) wl)
+  have hall := ran_bind h1 (ran_bind h2 (ran_bind h3 (ran_bind h4 (ran_bind h5 (ran_bind h6 (ran_bind h7
+    (ran_bind h8 (ran_bind h9 (ran_bind h10 (ran_bind h11 h12))))))))))
+  refine ⟨r, H12, ?_, hall.ext, ?_⟩
+  · unfold lossCompute
+    rw [bind_run (show (getHeap : HM ℝ (Heap ℝ)) H = .ok (H, H) from rfl)]
+    have hv : lossValid H Loss.bce (some p) (some t) = .ok (p, t) := by
+      simp [lossValid, dp, dt]
+    rw [bind_run (show (liftOut (lossValid H Loss.bce (some p) (some t)) : HM ℝ (Nat × Nat)) H = .ok ((p, t), H) by rw [hv]; rfl)]
+    simp only []
+    exact hall.run
+  · rw [h12.val, h11.val]
+    congr 2
+    simp only [Reducer.fn, Tensor.mean, Tensor.avg, tensor_sum, Tensor.numElems, prod, div_eq, ofNat_eq]
+    rw [zipWith_as_map]
+    have hmap : ∀ (F G : ℝ × ℝ → ℝ) (Z : List (ℝ × ℝ)), (∀ z, F z = -1 * G z) →
+        (Z.map F).sum / ((n * 1 : ℕ) : ℝ) = -(1 / (n : ℝ)) * (Z.map G).sum := by
+      intro F G Z hFG
+      have : Z.map F = Z.map (fun z => -1 * G z) := List.map_congr_left (fun z _ => hFG z)
+      rw [this, List.sum_map_mul_left]
+      simp only [Nat.mul_one]
+      ring
+    apply hmap
+    intro z
+    simp only [Arith.fn, Unary.fn, mul_eq, add_eq, sub_eq, neg_eq, log_eq, pow_eq, zero_eq, one_eq, eps_val,
+      oneMinusEps_val, Real.rpow_zero, tHat, pHat, clipR]
+
 end C12x
 end Qeep
